@@ -522,3 +522,39 @@ func (p PoolSpec) Enumerate(limit int) []netip.Addr {
 
 func secs(n int) timeDuration { return timeDuration(n) * 1000000000 }
 
+
+// ---------------------------------------------------------------- endpoint slices
+
+// Tri is an optional boolean: 0 nil, 1 true, 2 false.
+type Tri int
+
+func (t Tri) Ptr() *bool {
+	switch t {
+	case 1:
+		v := true
+		return &v
+	case 2:
+		v := false
+		return &v
+	}
+	return nil
+}
+
+type EndpointSpec struct {
+	Addrs   []string `json:"addrs"`
+	Node    string   `json:"node,omitempty"` // "" = no node name
+	Ready   Tri      `json:"ready,omitempty"`
+	Serving Tri      `json:"serving,omitempty"`
+}
+
+// CanServe is EndpointSlice semantics as the documentation states it: ready (nil counts as ready) or serving.
+func (e EndpointSpec) CanServe() bool {
+	return e.Ready == 0 || e.Ready == 1 || e.Serving == 1
+}
+
+type SliceSpec struct {
+	Name      string         `json:"name"`
+	NS        string         `json:"ns"`
+	Svc       string         `json:"svc"` // service name
+	Endpoints []EndpointSpec `json:"endpoints"`
+}
